@@ -560,6 +560,9 @@ def _attrs_of(o):
     return None
 
 
+POLYGON_VERTICES_PRIMARY = [False]  # switched on by contracts/c18.py (frame comparisons), see spec/approx.py
+
+
 def deep_eq(a, b, F=None, ignore=(), _depth=0):
     """structural equality as a z3 Bool (numbers by value, containers element-wise, objects by class
     and attributes; attributes named in `ignore` are skipped)."""
@@ -622,8 +625,11 @@ def deep_eq(a, b, F=None, ignore=(), _depth=0):
             return z3.BoolVal(bool(a == b))
         except Exception:
             raise Unsupported("deep_eq on %r" % ca)
-    ka = {k for k in da if k not in ignore}
-    kb = {k for k in db if k not in ignore}
+    ig = ignore
+    if POLYGON_VERTICES_PRIMARY[0] and getattr(ca, "__name__", "") == "Polygon" and "_vertices" in ignore:
+        ig = tuple(k for k in ignore if k != "_vertices")  # primary data of a Polygon (a derived cache only for Rectangle)
+    ka = {k for k in da if k not in ig}
+    kb = {k for k in db if k not in ig}
     if ka != kb:
         return z3.BoolVal(False)
     return conj(deep_eq(da[k], db[k], F, ignore, _depth + 1) for k in sorted(ka))
